@@ -640,6 +640,31 @@ func checkEventLevels(senderLevel int64, oldPowerLevels, newPowerLevels PowerLev
 		})
 	}
 
+	// The default used above is the one for non-state events, so an entry that
+	// is added with (or removed while having) the value of events_default looks
+	// unchanged although it changes the level needed to send that type as a
+	// state event. Check the entries themselves as well: an entry may only be
+	// added or changed to a value that is not above the sender's level, and only
+	// be changed or removed if its value is not above the sender's level.
+	for eventType, newLevel := range newPowerLevels.Events {
+		if oldLevel, ok := oldPowerLevels.Events[eventType]; (!ok || oldLevel != newLevel) && senderLevel < newLevel {
+			return errorf(
+				"sender with level %d is not allowed to set the level for %q to %d"+
+					" because the new level is above the level of the sender",
+				senderLevel, eventType, newLevel,
+			)
+		}
+	}
+	for eventType, oldLevel := range oldPowerLevels.Events {
+		if newLevel, ok := newPowerLevels.Events[eventType]; (!ok || oldLevel != newLevel) && senderLevel < oldLevel {
+			return errorf(
+				"sender with level %d is not allowed to change the level for %q from %d"+
+					" because the current level is above the level of the sender",
+				senderLevel, eventType, oldLevel,
+			)
+		}
+	}
+
 	// Check each of the levels in the list.
 	for _, level := range levelChecks {
 		// Check if the level is being changed.
